@@ -43,7 +43,7 @@ func (h *fakeDlqHandler) Write(ctx context.Context, r opencdc.Record) error {
 		h.x.log.Add(Ev{T: "QC", S: s, K: k, Ok: false})
 		return err
 	}
-	if h.x.c.Dlq.ErrAt > 0 && n == h.x.c.Dlq.ErrAt {
+	if (h.x.c.Dlq.ErrAt > 0 && n == h.x.c.Dlq.ErrAt) || inSet(h.x.c.Dlq.Fail, s, k) {
 		h.x.log.Add(Ev{T: "QC", S: s, K: k, Ok: false})
 		return cerrors.New("scripted dlq failure")
 	}
